@@ -327,6 +327,54 @@ fn locality(ms: &ModuleSet, base: &Compiled, var: &Compiled, tainted: &BTreeSet<
     None
 }
 
+fn ren(ty: &mut Ty, from: &str, to: &str) {
+    match ty {
+        Ty::Ref { name, .. } if name == from => *name = to.to_string(),
+        Ty::Sequence(Fields { root, ext }) | Ty::Set(Fields { root, ext }) | Ty::Choice(Alts { root, ext }) => {
+            for c in root.iter_mut() {
+                ren(&mut c.ty, from, to);
+            }
+            if let Some(adds) = ext {
+                for ad in adds.iter_mut() {
+                    match ad {
+                        Addition::Comp(c) => ren(&mut c.ty, from, to),
+                        Addition::Group { comps, .. } => comps.iter_mut().for_each(|c| ren(&mut c.ty, from, to)),
+                    }
+                }
+            }
+        }
+        Ty::SeqOf(o) | Ty::SetOf(o) => ren(&mut o.elem, from, to),
+        _ => {}
+    }
+}
+
+/// rename a type that governs a value assignment to a name written in capitals only (a legal
+/// typereference, X.680 12.2): every definition must still be accounted for
+fn allcaps_variant(ms: &ModuleSet) -> Option<(ModuleSet, String, String)> {
+    let imported: BTreeSet<&String> = ms.modules.iter().flat_map(|m| m.imports.iter().flat_map(|i| i.symbols.iter())).collect();
+    let (mi, tname) = ms.modules.iter().enumerate().find_map(|(mi, m)| {
+        m.items.iter().find_map(|i| match i {
+            Item::Value { ty: Ty::Ref { name, module: None, .. }, .. } if !imported.contains(name) && m.items.iter().any(|t| matches!(t, Item::Type { name: n, .. } if n == name)) => Some((mi, name.clone())),
+            _ => None,
+        })
+    })?;
+    let to = format!("ZQ-K{mi}");
+    let mut out = ms.clone();
+    for it in out.modules[mi].items.iter_mut() {
+        match it {
+            Item::Type { name, ty, .. } => {
+                if *name == tname {
+                    *name = to.clone();
+                }
+                ren(ty, &tname, &to);
+            }
+            Item::Value { ty, .. } => ren(ty, &tname, &to),
+            _ => {}
+        }
+    }
+    Some((out, tname, to))
+}
+
 /// rename one type of module 1 to the name of a type of module 0 (nobody imports either)
 fn dup_names(ms: &ModuleSet) -> Option<(ModuleSet, String)> {
     if ms.modules.len() < 2 {
@@ -354,26 +402,6 @@ fn dup_names(ms: &ModuleSet) -> Option<(ModuleSet, String)> {
         _ => None,
     })?;
     let mut out = ms.clone();
-    fn ren(ty: &mut Ty, from: &str, to: &str) {
-        match ty {
-            Ty::Ref { name, .. } if name == from => *name = to.to_string(),
-            Ty::Sequence(Fields { root, ext }) | Ty::Set(Fields { root, ext }) | Ty::Choice(Alts { root, ext }) => {
-                for c in root.iter_mut() {
-                    ren(&mut c.ty, from, to);
-                }
-                if let Some(adds) = ext {
-                    for ad in adds.iter_mut() {
-                        match ad {
-                            Addition::Comp(c) => ren(&mut c.ty, from, to),
-                            Addition::Group { comps, .. } => comps.iter_mut().for_each(|c| ren(&mut c.ty, from, to)),
-                        }
-                    }
-                }
-            }
-            Ty::SeqOf(o) | Ty::SetOf(o) => ren(&mut o.elem, from, to),
-            _ => {}
-        }
-    }
     for it in out.modules[1].items.iter_mut() {
         match it {
             Item::Type { name, ty, .. } => {
@@ -490,6 +518,23 @@ pub fn eval(ms: &ModuleSet, stream_salt: u64) -> Verdict {
             Err(e) => failures.push(("dup-status".into(), None, format!("renaming a type to a name used in another module turned Ok into {e}"), json!({"variant": print(&dup.0)}))),
         }
     }
+    // a type reference in capitals only
+    if let Some((var, from, to)) = allcaps_variant(ms) {
+        match compile(&var) {
+            Ok(vc) => {
+                if let Some((_kind, d)) = accounting(&var, &vc, &BTreeSet::new()) {
+                    failures.push((
+                        "accounting:allcaps-typereference".into(),
+                        Some("F-allcaps"),
+                        format!("type `{from}` renamed to `{to}` (capitals only): {d}"),
+                        json!({"variant": print(&var), "detail": d}),
+                    ));
+                }
+            }
+            // an Err is a reported rejection: nothing is lost silently
+            Err(_) => {}
+        }
+    }
     let pick = failures.iter().position(|f| f.1.is_none()).or(if failures.is_empty() { None } else { Some(0) });
     if let Some(i) = pick {
         let (key, finding, what, observed) = failures.swap_remove(i);
@@ -529,6 +574,7 @@ pub fn run(tier: Tier, seed: u64, replay: Option<String>) -> i32 {
         let fid: Option<&'static str> = match v["finding"].as_str() {
             Some("F-roid-val") => Some("F-roid-val"),
             Some("F-dependent-dropped") => Some("F-dependent-dropped"),
+            Some("F-allcaps") => Some("F-allcaps"),
             _ => None,
         };
         if fid.is_none() && v["finding"].as_str() == Some("F-dup") {
